@@ -32,15 +32,24 @@ Variable program : Type.
 Variable compile : string -> string -> fileset -> program.
    (* toolchain (its `go version` line), the non-magefile packages the magefiles import, the files *)
 
-(* ExeName, main.go:668-693: one hash per file (of its CONTENTS: hashFile never looks at the
-   name), the hash of the template, sort, join, append the key and `go version`, hash again.
-   The result is joined to the cache directory (Model/Paths.v). *)
-Definition hashes (tpl : string) (files : fileset) : list string :=
-  map (fun f => H (snd f)) files ++ [H tpl].
-Definition name_input (key tpl ver : string) (files : fileset) : string :=
-  (join (sort_strings (hashes tpl files)) ++ key ++ ver)%string.
+(* ExeName, main.go:668-694: one hash per file (of its CONTENTS: hashFile never looks at the
+   name); sort.Strings of these; the hash of the template appended AFTER sorting (commit db4aa20);
+   join, append the key and `go version`, hash again.  The result is joined to the cache
+   directory (Model/Paths.v).
+   [fixed = false] is the tree before db4aa20: the template hash was appended first and sorted
+   into the same list as the file hashes. *)
+Definition file_hashes (files : fileset) : list string := map (fun f => H (snd f)) files.
+Definition hash_list (fixed : bool) (tpl : string) (files : fileset) : list string :=
+  if fixed then sort_strings (file_hashes files) ++ [H tpl]
+  else sort_strings (file_hashes files ++ [H tpl]).
+Definition name_input_f (fixed : bool) (key tpl ver : string) (files : fileset) : string :=
+  (join (hash_list fixed tpl files) ++ key ++ ver)%string.
+Definition name_input : string -> string -> string -> fileset -> string := name_input_f true.
 Definition exe_name_k (key tpl ver : string) (files : fileset) : string := H (name_input key tpl ver files).
 Definition exe_name : string -> string -> fileset -> string := exe_name_k magicRebuildKey.
+(* the name before db4aa20 *)
+Definition exe_name_old (tpl ver : string) (files : fileset) : string :=
+  H (name_input_f false magicRebuildKey tpl ver files).
 
 (* every string that is hashed while computing the name *)
 Definition hashed (tpl ver : string) (files : fileset) : list string :=
